@@ -272,6 +272,7 @@ func tokenizeForSemantics(content string) []semanticToken {
 	directiveType := ""
 	isPayee := false
 	currentLine := -1
+	prevType := parser.TokenEOF
 
 	for {
 		tok := lexer.Next()
@@ -311,7 +312,11 @@ func tokenizeForSemantics(content string) []semanticToken {
 		if tok.Type == parser.TokenText && isPayee {
 			semType = TokenTypePayee
 			isPayee = false
+		} else if tok.Type == parser.TokenText && prevType == parser.TokenNumber && isCommodityWord(tok.Value) {
+			// a lower-case commodity (12 hours) arrives as text; the parser makes it the amount's commodity
+			semType = TokenTypeCommodity
 		}
+		prevType = tok.Type
 
 		// Handle comments with tags - extract tag tokens
 		if tok.Type == parser.TokenComment {
@@ -423,6 +428,20 @@ func extractTagTokensFromComment(tok parser.Token) []semanticToken {
 	}
 
 	return tokens
+}
+
+// isCommodityWord mirrors the parser's rule for a commodity written as a word
+// after the number: letters and digits only, at least one letter.
+func isCommodityWord(value string) bool {
+	hasLetter := false
+	for _, r := range value {
+		if unicode.IsLetter(r) {
+			hasLetter = true
+		} else if !unicode.IsDigit(r) {
+			return false
+		}
+	}
+	return hasLetter
 }
 
 func isValidTagName(name string) bool {
